@@ -871,7 +871,8 @@ def cli_option_rule(ctx: T.Any, rule: str, names: T.Iterable[str]) -> None:
             ctx.require(False, f"cli: option {name} is not declared with click.option")
         kws = kwargs_of(c)
         d = kws.get("default")
-        d_ok = (d is None and want_default is None) or (isinstance(d, ast.Constant) and d.value is want_default) or (d is None and want_default is False and want_flag)
+        is_switch = "/" in name          # `--push/--no-push`: click resolves an absent switch to False unless default=None is explicit
+        d_ok = (d is None and want_default is None and not is_switch) or (isinstance(d, ast.Constant) and d.value is want_default) or (d is None and want_default is False and want_flag)
         ctx.check(rule, d_ok, f"cli: option {name} defaults to {want_default!r}", f"cli: option {name} does not default to {want_default!r}",
                   f"`default={unparse(d) if d is not None else None}`: the option takes effect although it was not given on the command line", loc=f"{mod.relpath}:{c.lineno}",
                   witness={"option": name, "default": unparse(d) if d is not None else None})
